@@ -4,7 +4,57 @@ from . import common, extract
 NAMES = {}
 
 
+REGISTERED_SCRIPT = r"""
+import os, sys, json
+sys.path.insert(0, os.environ['REPO'])
+import warnings; warnings.simplefilter('ignore')
+from pynetdicom2 import statuses, dimsemessages as dm
+# an application registers its own codes, as the library documents: the cancel status of the query/retrieve services, a
+# general warning, a service-specific pending range and a service-specific success that shadows a general failure
+for c in (dm.CFindRSPMessage, dm.CGetRSPMessage, dm.CMoveRSPMessage):
+    statuses.add_status(0xFE00, 'Cancel', 'Matching terminated due to Cancel request', command=c)
+statuses.add_status(0x0107, 'Warning', 'Attribute list error')
+statuses.add_status(0x7000, 'Pending', 'site specific', end=0x7003, command=dm.NActionRSPMessage)
+statuses.add_status(0x0110, 'Success', 'site specific', command=dm.NEventReportRSPMessage)
+want = {}
+for c in (dm.CFindRSPMessage, dm.CGetRSPMessage, dm.CMoveRSPMessage):
+    want[(c.command_field, 0xFE00)] = 'cancel'
+for code in range(0x7000, 0x7004):
+    want[(dm.NActionRSPMessage.command_field, code)] = 'pending'
+want[(dm.NEventReportRSPMessage.command_field, 0x0110)] = 'success'
+problems = []
+classes = [None, dm.CFindRSPMessage, dm.CGetRSPMessage, dm.CMoveRSPMessage, dm.CStoreRSPMessage, dm.NActionRSPMessage,
+           dm.NEventReportRSPMessage, dm.CEchoRSPMessage]
+for c in classes:
+    cf = 0 if c is None else c.command_field
+    for code in range(65536):
+        st = statuses.Status(code, c)
+        flags = [n for n in ('success', 'pending', 'warning', 'cancel', 'failure') if getattr(st, 'is_' + n)]
+        if len(flags) != 1:
+            problems.append('Status(0x%04X, command 0x%04X) is %r: not exactly one class' % (code, cf, flags)); break
+        w = want.get((cf, code)) or ('warning' if code == 0x0107 else None)
+        if w and flags[0] != w:
+            problems.append('Status(0x%04X, command 0x%04X) registered as %s is classified %s' % (code, cf, w, flags[0])); break
+        if int(st) != code:
+            problems.append('int(Status(0x%04X)) = %r' % (code, int(st))); break
+print(json.dumps(problems))
+"""
+
+
+def registered():
+    """classification after an application registered codes of its own (fresh interpreter: the tables are global)"""
+    import json, os, subprocess, sys
+    p = subprocess.run([sys.executable, '-c', REGISTERED_SCRIPT], env=dict(os.environ, REPO=common.REPO), stdout=subprocess.PIPE,
+                       stderr=subprocess.PIPE, timeout=600)
+    if p.returncode != 0:
+        return ['the registration script failed: ' + p.stderr.decode('utf-8', 'replace')[-400:]]
+    return json.loads(p.stdout.decode().strip().split('\n')[-1])
+
+
 def replay(case):
+    if case.get('registered'):
+        r = registered()
+        return '; '.join(r[:3]) or None
     from pynetdicom2 import statuses
     cmds = {(0 if c is None else c.command_field): c for c in extract.status_commands()}
     cf, code = case['command_field'], case['code']
@@ -19,7 +69,9 @@ def run(chk):
     chk.rule = ('Status(code, cmd) evaluated for ALL 65536 codes x all 23 message classes and no class on the '
                 'running code, range-compressed into runs; each run checked against the Lean specification '
                 '(driver op status-check), the run table emitted as Dicom/Generated/Statuses.lean and the C18 '
-                'theorems re-checked by the kernel; distinct non-trivial = distinct (command, run) pairs')
+                'theorems re-checked by the kernel; in a fresh interpreter, after the application registered codes of its own with '
+                'add_status() (cancel, a general warning, a service-specific range), every code of 8 classes is again in exactly one '
+                'class, the registered ones in theirs; distinct non-trivial = distinct (command, run) pairs')
     chk.trusted += ['harness/extract.py tabulation (three nested ranges: commands x codes 0..65535)',
                     'Dicom/Spec/StatusSpec.lean: transcription of PS3.7 Annex C and PS3.4 B.2.3, C.4.1-C.4.3']
     chk.assumptions += ['FE00 (cancel in the standard, unregistered in this library): cancel or failure admitted',
@@ -43,4 +95,9 @@ def run(chk):
             chk.violation('C18:%04X:%04X' % (cf, code),
                           'Status(0x%04X, command field 0x%04X) classified %s; %s' % (code, cf, k, r),
                           {'command_field': cf, 'code': code})
+    probs = registered()
+    chk.case('registered-codes', True, {'registered': 'cancel FE00 for C-FIND/GET/MOVE, general warning 0107, pending 7000..7003, success 0110'})
+    chk.evaluations += 8 * 65536
+    for pr in probs[:5]:
+        chk.violation('C18:registered:' + pr[:30], 'after add_status(): ' + pr, {'registered': True})
     chk.lean(['Dicom.Props.C18'])
